@@ -228,6 +228,19 @@ def closing_oracle(ctx, data, v, real=False):
                                      features=['closing-order', 'lost' if len(eg['got']) < len(eg['expected']) else ('doubled' if len(eg['got']) > len(eg['expected']) else 'moved')])
             elif isinstance(vf, dict) and vf:
                 ctx.count('a cell continues a vertical merge: C02_post_part_dup does not apply (C02_post_part, duplication off, does)')
+                # C02_post_part_any: with duplication on the records (copies aside) are a SUBLIST of the closing order: nothing
+                # invented, nothing doubled, nothing moved
+                cd = impl.closing_order(data, dup=True)
+                if 'err' not in cd:
+                    for ty, eg in cd['types'].items():
+                        if not eg['expected'] and not eg['got']: continue
+                        ctx.count('closing-order oracle, duplicate_merged_cells=True, sublist (C02_post_part_any)' + (' (real documents)' if real else ''))
+                        it = iter(eg['expected'])
+                        if not all(any(g == e for e in it) for g in eg['got']):
+                            good = False
+                            ctx.fail('with duplicate_merged_cells=True the paragraph records (copies aside) are not a sublist of the source paragraphs in the order of their closing tags',
+                                     case_payload(data, html=False, dup=True), {'type': ty, 'got': eg['got'][:12]}, {'expected': eg['expected'][:12]},
+                                     features=['closing-order', 'sublist'])
             mp = (v or {}).get('<post>') if isinstance(v, dict) else None
             if isinstance(mp, dict):
                 for path, pe in co['paths'].items():
